@@ -13,9 +13,10 @@ type LineBP struct {
 	Level int    `json:"l"`
 	Xref  Str    `json:"x,omitempty"`
 	Tag   string `json:"t,omitempty"`
-	Value Str    `json:"v,omitempty"` // raw, may carry leading/trailing blanks
-	Gap   int    `json:"g,omitempty"` // extra spaces after the level
-	Zeros int    `json:"z,omitempty"` // leading zeros written before the level ("08" is level 8)
+	Value Str    `json:"v,omitempty"`    // raw, may carry leading/trailing blanks
+	Gap   int    `json:"g,omitempty"`    // extra spaces after the level
+	Zeros int    `json:"z,omitempty"`    // leading zeros written before the level ("08" is level 8)
+	Long  int    `json:"long,omitempty"` // this many further bytes ('x') belong to the value
 	Raw   Str    `json:"raw,omitempty"`
 	IsRaw bool   `json:"israw,omitempty"` // emit Raw verbatim (continuation / unparsable line)
 	Term  string `json:"e"`               // terminator bytes after the line
@@ -42,8 +43,8 @@ func (l LineBP) Render() string {
 		s += "@" + string(l.Xref) + "@ "
 	}
 	s += l.Tag
-	if l.Value != "" {
-		s += " " + string(l.Value)
+	if l.Value != "" || l.Long > 0 {
+		s += " " + string(l.Value) + strings.Repeat("x", l.Long)
 	}
 	return s
 }
@@ -211,6 +212,9 @@ func Text(o TextOpts) *rapid.Generator[*TextBP] {
 			}
 			if rapid.IntRange(0, 5).Draw(t, "gap") == 0 {
 				l.Gap = rapid.IntRange(1, 3).Draw(t, "gapn")
+			}
+			if rapid.IntRange(0, 999).Draw(t, "long") == 733 && l.Tag != "" { // (not 0: rapid favours the ends of a range)
+				l.Long = rapid.SampledFrom([]int{65535, 65536, 70000, 140000}).Draw(t, "longn")
 			}
 			if rapid.IntRange(0, 19).Draw(t, "zeros") == 0 {
 				l.Zeros = rapid.IntRange(1, 3).Draw(t, "nzeros")
